@@ -72,6 +72,14 @@ Theorem C16_mutual_limit_refuse : forall c s p h nbrs,
 Proof. exact Proof.C16.mutual_limit_refuse. Qed.
 Print Assumptions C16_mutual_limit_refuse.
 
+(* no spurious refusal: AddPending is accepted exactly when there is room, the peer is neither
+   pending nor active, and the mutual limit holds *)
+Theorem C16_add_pending_accept_iff : forall c s p h nbrs,
+  snd (add_pending c s p h nbrs) = AddOk <->
+  count h (conns s) <> c_max c /\ connected s h p = false /\ num_mutual s h nbrs <= c_mutual c.
+Proof. exact Proof.C16.add_pending_accept_iff. Qed.
+Print Assumptions C16_add_pending_accept_iff.
+
 (* ---- clause 4: a replaced connection is never removed on behalf of an older one *)
 Theorem C16_replaced_conn_safe : forall s cn cn' p h,
   lookup (h, p) (conns s) = Some (Active cn') -> cn <> cn' ->
@@ -153,6 +161,20 @@ Theorem C16_blacklist_duration : forall c ops1 o ops2 p h,
   blacklisted s3 (h, p) = (now s3 <? now s1 + c_dur c).
 Proof. exact Proof.C16.blacklist_duration. Qed.
 Print Assumptions C16_blacklist_duration.
+
+(* (d) conversely, whoever is blacklisted at the end of a history owes it to an accepted blacklisting
+       that is still within its duration and was not cleared since: with (b), a peer is withheld
+       from dialling exactly while such a blacklisting exists *)
+Theorem C16_blacklisted_has_cause : forall c ops h p,
+  let s3 := fst (run c init ops) in
+  blacklisted s3 (h, p) = true ->
+  exists ops1 o ops2,
+    ops = ops1 ++ o :: ops2 /\ blacklists_key o p h = true /\ c_nobl c = false /\
+    blacklisted (fst (run c init ops1)) (h, p) = false /\
+    forallb (fun o => negb (clears_hash o h)) ops2 = true /\
+    now s3 < now (fst (run c init ops1)) + c_dur c.
+Proof. exact Proof.C16.blacklisted_has_cause. Qed.
+Print Assumptions C16_blacklisted_has_cause.
 
 Theorem C16_not_blacklisted_without_cause : forall c ops p h,
   forallb (fun o => negb (blacklists_key o p h)) ops = true ->
